@@ -25,6 +25,9 @@ package main
 // The case is deterministic (no goroutines of its own; only one class is above the trigger, so the pass runs one
 // worker).  Whether the refusal really happens depends on the OS honouring RLIMIT_AS (Linux does); the evidence
 // counts how many cases stopped at the fault and how many survived.
+//
+// Second family, "Malloc under memory pressure" (pressPlan, Press > 0): no pass; Malloc's own mappings are refused.
+// The unfixed Malloc left Allocs = live + 1 after every nil (fixed in /repo de3a7c01); key malloc-nil-allocs.
 
 import (
 	"bytes"
@@ -54,6 +57,7 @@ type faultCase struct {
 	Shape      int // 0: every page keeps the same number of random slots; 1: uniform random frees; 2: gradient (first page nearly full .. last nearly empty)
 	FaultAfter int // the address-space limit follows the process from this many relocations of pass 1 on (0: from before the pass)
 	Traffic    int // Malloc/Free operations between the two passes
+	Press      int `json:",omitempty"` // > 0: a "Malloc under memory pressure" case (no pass): this many Mallocs while the OS refuses memory; Pages = pages' worth of records allocated before
 }
 
 func (c faultCase) replay() map[string]interface{} { return map[string]interface{}{"fault": c} }
@@ -89,6 +93,21 @@ func faultPlan(g *vlib.Rng, n int) []faultCase {
 	return out
 }
 
+// pressPlan: "Malloc under memory pressure" cases.  No defragmentation pass: a few classes get records, then the
+// address-space limit is put just above the process and Malloc is called for sizes of classes that are dry (a fresh
+// shared page is needed: the page cache gives its 2..5 pages, then mmap is refused), for private sizes of 1..3 MiB
+// (refused), small private sizes (may fit) and classes that still have free slots (no mmap needed).  A nil result
+// must leave Allocs unchanged and equal to the number of live records; then the limit is lifted, the same sizes
+// must be served, traffic, everything freed, with the quiescent-point checks of the other cases.
+func pressPlan(g *vlib.Rng, n int) []faultCase {
+	var out []faultCase
+	for k := 0; k < n; k++ {
+		out = append(out, faultCase{Name: fmt.Sprintf("press#%d", k), Seed: g.U64(), Class: g.Intn(len(slots)), Pages: 1 + g.Intn(3),
+			KeepPct: 30 + g.Intn(50), Traffic: 100 + g.Intn(300), Press: 24 + g.Intn(24)})
+	}
+	return out
+}
+
 type faultLine struct {
 	Stage   string `json:"stage,omitempty"`
 	Outcome string `json:"outcome,omitempty"` // ok | violation
@@ -97,12 +116,15 @@ type faultLine struct {
 	Moved1  int    `json:"moved1,omitempty"`
 	Moved2  int    `json:"moved2,omitempty"`
 	Live    int    `json:"live,omitempty"`
-	Soft    string `json:"soft,omitempty"` // first structural finding (slot accounting) met on the way; the history went on to see what it does to live data
+	Nils    int    `json:"nils,omitempty"`    // pressure cases: Mallocs that returned nil while the OS refused memory
+	NilsSh  int    `json:"nils_sh,omitempty"` // ... of which for a shared-class size
+	Soft    string `json:"soft,omitempty"`    // first structural finding (slot accounting) met on the way; the history went on to see what it does to live data
 }
 
 var faultStats struct {
 	cases, stopped, survived, unavailable int
 	moved                                 int
+	press, pressNils, pressNilsShared     int
 }
 
 // runFaultCase runs one case in a child process; true = a property failure was reported.
@@ -137,6 +159,10 @@ func runFaultCase(c faultCase) bool {
 	go func() { done <- cmd.Wait() }()
 	desc := fmt.Sprintf("out-of-memory case %q (class %d, slot %d bytes, %d pages, %d%% kept, shape %d, address-space limit armed after %d relocations of pass 1)",
 		c.Name, c.Class, slots[c.Class], c.Pages, c.KeepPct, c.Shape, c.FaultAfter)
+	if c.Press > 0 {
+		desc = fmt.Sprintf("memory-pressure case %q (records in class %d and its neighbours, then %d Mallocs of dry-class, private and served sizes while RLIMIT_AS refuses every fresh mapping, limit lifted, %d operations of traffic, all freed)",
+			c.Name, c.Class, c.Press, c.Traffic)
+	}
 	var runErr error
 	select {
 	case runErr = <-done:
@@ -165,8 +191,14 @@ func runFaultCase(c faultCase) bool {
 	}
 	faultStats.cases++
 	r.Eval("fault-case", fmt.Sprint(c.Name, c.Seed))
-	r.Hit(fmt.Sprintf("fault:shape%d", c.Shape))
-	if c.FaultAfter == 0 {
+	if c.Press > 0 {
+		faultStats.press++
+		r.Hit("fault:malloc-under-pressure")
+	} else {
+		r.Hit(fmt.Sprintf("fault:shape%d", c.Shape))
+	}
+	if c.Press > 0 {
+	} else if c.FaultAfter == 0 {
 		r.Hit("fault:armed-before-the-pass")
 	} else {
 		r.Hit("fault:armed-inside-the-pass")
@@ -188,6 +220,21 @@ func runFaultCase(c faultCase) bool {
 	case last.Outcome == "ok" && runErr == nil:
 		faultStats.survived++
 		faultStats.moved += last.Moved1 + last.Moved2
+		faultStats.pressNils += last.Nils
+		faultStats.pressNilsShared += last.NilsSh
+		if c.Press > 0 {
+			if last.Nils > 0 {
+				r.Hit("fault:pressure:Malloc-returned-nil,Allocs=live")
+			} else {
+				r.Hit("fault:pressure:no-Malloc-was-refused")
+			}
+			if last.NilsSh > 0 {
+				r.Hit("fault:pressure:shared-class-Malloc-refused")
+			}
+			if last.Nils > last.NilsSh {
+				r.Hit("fault:pressure:private-Malloc-refused")
+			}
+		}
 		r.Hit("fault:survived,all-checks-hold")
 		return false
 	case stage == "":
@@ -197,6 +244,9 @@ func runFaultCase(c faultCase) bool {
 		return false
 	case stage == "squeezed":
 		faultStats.stopped++
+		if c.Press > 0 {
+			r.Hit("fault:pressure:process-died-under-the-limit")
+		}
 		switch s := errb.String(); {
 		case strings.Contains(s, "panic:"):
 			r.Hit("fault:stopped-at-the-fault(panic)")
@@ -213,7 +263,12 @@ func runFaultCase(c faultCase) bool {
 }
 
 func runFaultStream(g *vlib.Rng, n int) {
-	for i, c := range faultPlan(g, n) {
+	plan := faultPlan(g, n)
+	press := pressPlan(g, r.N(3, 10)) // drawn after the pass cases: those are the same as before this family existed
+	for i, c := range append(plan, press...) {
+		if i == len(plan) {
+			r.Sample(map[string]interface{}{"trace": c.Name, "case": c, "pattern": "records in a few classes, RLIMIT_AS just above the process size, Mallocs of dry-class / private / served sizes (nil => Allocs unchanged = live), limit lifted, the refused sizes served, traffic, all freed"})
+		}
 		if i == 0 {
 			r.Sample(map[string]interface{}{"trace": c.Name, "case": c, "pattern": "fragmented class, DefragAllImproved with RLIMIT_AS following the process size (fresh page refused), limit lifted, traffic, second pass, all freed"})
 		}
@@ -222,7 +277,8 @@ func runFaultStream(g *vlib.Rng, n int) {
 		}
 	}
 	r.Extra["oom_faults"] = map[string]interface{}{"cases": faultStats.cases, "stopped_at_the_fault": faultStats.stopped,
-		"survived_with_all_checks": faultStats.survived, "child_could_not_prepare": faultStats.unavailable, "records_relocated_in_surviving_cases": faultStats.moved}
+		"survived_with_all_checks": faultStats.survived, "child_could_not_prepare": faultStats.unavailable, "records_relocated_in_surviving_cases": faultStats.moved,
+		"malloc_under_pressure_cases": faultStats.press, "mallocs_refused_with_nil": faultStats.pressNils, "of_which_shared_class": faultStats.pressNilsShared}
 }
 
 // ------------------------------------------------------------------------------------------------
@@ -314,10 +370,12 @@ func faultChild() {
 	nextTag := 0
 	sizeIn := func(cl int) int {
 		lo, hi := classSizeRange(cl)
+		if lo < 1 {
+			lo = 1
+		}
 		return lo + g.Intn(hi-lo+1)
 	}
-	alloc := func(size int) *faultRec {
-		p := a.Malloc(size)
+	adopt := func(p *[]byte, size int) *faultRec {
 		if s := sliceShape(p, size); s != "" {
 			violation("malloc-shape", fmt.Sprintf("Malloc(%d): %s", size, s))
 		}
@@ -329,9 +387,12 @@ func faultChild() {
 		rec := &faultRec{p, size, nextTag}
 		fill(*p, rec.tag)
 		live[addr] = rec
-		touched[classOfSize(size+sliceHdr)] = true
+		if cl := classOfSize(size + sliceHdr); cl >= 0 {
+			touched[cl] = true
+		}
 		return rec
 	}
+	alloc := func(size int) *faultRec { return adopt(a.Malloc(size), size) }
 	free := func(rec *faultRec, when string) {
 		if s := sliceShape(rec.ptr, rec.size); s != "" {
 			violation("header-corrupt", fmt.Sprintf("%s: live allocation of size %d before its Free: %s", when, rec.size, s))
@@ -395,6 +456,165 @@ func faultChild() {
 		})
 	}
 
+	var buf [128]byte
+	squeezed := false
+	squeeze := func() {
+		n, err := syscall.Pread(int(statm.Fd()), buf[:], 0)
+		if err != nil || n <= 0 {
+			return
+		}
+		var vmPages uint64
+		for _, ch := range buf[:n] {
+			if ch < '0' || ch > '9' {
+				break
+			}
+			vmPages = vmPages*10 + uint64(ch-'0')
+		}
+		lim := old
+		lim.Cur = vmPages*uint64(osPage) + 512<<10 // the 2 MiB request of an aligned 1 MiB page does not fit, even after one page was returned
+		if lim.Cur > old.Max {
+			lim.Cur = old.Max
+		}
+		if !squeezed {
+			squeezed = true
+			emit(faultLine{Stage: "squeezed"})
+		}
+		syscall.Setrlimit(syscall.RLIMIT_AS, &lim)
+	}
+	if c.Press > 0 {
+		// "Malloc under memory pressure": no pass; see pressPlan
+		allocsIsLive := func(when string) {
+			if n := int(a.Allocs.Load()); n != len(live) {
+				violation("malloc-nil-allocs", fmt.Sprintf("%s: Allocs=%d but %d allocations are live", when, n, len(live)))
+			}
+		}
+		near := func() int { // the case's class or a neighbour
+			cl := c.Class + g.Intn(3) - 1
+			if cl < 0 || cl >= len(slots) {
+				cl = c.Class
+			}
+			return cl
+		}
+		var mine []*faultRec
+		guard("records before the pressure", func() {
+			for pg := 0; pg < c.Pages; pg++ {
+				cl := near()
+				n := (pgSize - hdrSize) / int(slots[cl])
+				if n > 300 {
+					n = 300
+				}
+				for i := 0; i < n; i++ {
+					mine = append(mine, alloc(sizeIn(cl)))
+				}
+			}
+			mine = append(mine, alloc(maxShared+1+g.Intn(100000)))
+			for i := len(mine) - 1; i >= 0; i-- { // free slots stay behind: these classes are served without mmap
+				if g.Intn(100) >= c.KeepPct {
+					free(mine[i], "before the pressure")
+					mine[i] = mine[len(mine)-1]
+					mine = mine[:len(mine)-1]
+				}
+			}
+		})
+		verify("before the pressure", true)
+		runtime.GC()
+		debug.SetGCPercent(-1)
+		var dry []int
+		for cl := range slots {
+			if !touched[cl] {
+				dry = append(dry, cl)
+			}
+		}
+		type refusal struct{ size int }
+		var refused []refusal
+		nils, nilsSh := 0, 0
+		squeeze()
+		guard("Malloc while the OS refuses memory", func() {
+			for i := 0; i < c.Press; i++ {
+				size, kind := 0, g.Intn(8)
+				switch {
+				case kind <= 3 && len(dry) > 0: // a dry class: page cache first, then a refused mmap
+					j := g.Intn(len(dry))
+					size = sizeIn(dry[j])
+					dry = append(dry[:j], dry[j+1:]...)
+				case kind <= 5: // private mapping that cannot fit
+					size = 1<<20 + g.Intn(2<<20)
+				case kind == 6: // small private mapping: may fit below the limit
+					size = maxShared + 1 + g.Intn(64<<10)
+				default: // a class with free slots
+					cl := c.Class
+					if len(mine) > 0 {
+						if k := classOfSize(mine[g.Intn(len(mine))].size + sliceHdr); k >= 0 {
+							cl = k
+						}
+					}
+					size = sizeIn(cl)
+				}
+				before := a.Allocs.Load()
+				p := a.Malloc(size)
+				if p == nil {
+					nils++
+					if size+sliceHdr <= maxShared {
+						nilsSh++
+					}
+					refused = append(refused, refusal{size})
+					if now := a.Allocs.Load(); now != before || int(now) != len(live) {
+						violation("malloc-nil-allocs", fmt.Sprintf("Malloc(%d) returned nil while the OS refused memory (call no. %d under the limit): Allocs was %d before the call and is %d after it, %d allocations are live", size, i+1, before, now, len(live)))
+					}
+					continue
+				}
+				mine = append(mine, adopt(p, size))
+				allocsIsLive(fmt.Sprintf("after Malloc(%d) served under the limit", size))
+				if len(mine) > 0 && g.Chance(1, 4) {
+					k := g.Intn(len(mine))
+					free(mine[k], "under the limit")
+					mine[k] = mine[len(mine)-1]
+					mine = mine[:len(mine)-1]
+					allocsIsLive("after a Free under the limit")
+				}
+			}
+		})
+		syscall.Setrlimit(syscall.RLIMIT_AS, &old)
+		debug.SetGCPercent(100)
+		emit(faultLine{Stage: "lifted", Nils: nils})
+		verify("after the pressure (Mallocs were refused)", true)
+		emit(faultLine{Stage: "traffic"})
+		guard("traffic after the pressure", func() {
+			for _, rf := range refused { // what was refused is served now
+				mine = append(mine, alloc(rf.size))
+				allocsIsLive(fmt.Sprintf("after Malloc(%d), refused earlier, was served", rf.size))
+			}
+			for i := 0; i < c.Traffic; i++ {
+				if len(mine) == 0 || g.Intn(100) < 55 {
+					size := sizeIn(g.Intn(len(slots)))
+					if g.Chance(1, 12) {
+						size = maxShared + 1 + g.Intn(400000)
+					}
+					mine = append(mine, alloc(size))
+				} else {
+					k := g.Intn(len(mine))
+					free(mine[k], "traffic after the pressure")
+					mine[k] = mine[len(mine)-1]
+					mine = mine[:len(mine)-1]
+				}
+				allocsIsLive("traffic after the pressure")
+			}
+		})
+		verify("after the traffic that followed the pressure", true)
+		nlive := len(live)
+		guard("freeing everything", func() {
+			for _, rec := range mine {
+				free(rec, "final frees")
+			}
+		})
+		if len(live) != 0 {
+			violation("harness", "pressure case: the harness lost track of a record")
+		}
+		verify("after freeing everything", true)
+		emit(faultLine{Outcome: "ok", Live: nlive, Nils: nils, NilsSh: nilsSh})
+		os.Exit(0)
+	}
+
 	// 1. fragmentation
 	recs := make([]*faultRec, 0, c.Pages*per)
 	guard("filling the class", func() {
@@ -434,31 +654,6 @@ func faultChild() {
 	emit(faultLine{Stage: "pass1"})
 
 	// 2. the pass during which the OS refuses fresh pages
-	var buf [128]byte
-	squeezed := false
-	squeeze := func() {
-		n, err := syscall.Pread(int(statm.Fd()), buf[:], 0)
-		if err != nil || n <= 0 {
-			return
-		}
-		var vmPages uint64
-		for _, ch := range buf[:n] {
-			if ch < '0' || ch > '9' {
-				break
-			}
-			vmPages = vmPages*10 + uint64(ch-'0')
-		}
-		lim := old
-		lim.Cur = vmPages*uint64(osPage) + 512<<10 // the 2 MiB request of an aligned 1 MiB page does not fit, even after one page was returned
-		if lim.Cur > old.Max {
-			lim.Cur = old.Max
-		}
-		if !squeezed {
-			squeezed = true
-			emit(faultLine{Stage: "squeezed"})
-		}
-		syscall.Setrlimit(syscall.RLIMIT_AS, &lim)
-	}
 	calls := 0
 	arm := -1 // the limit follows the process from this many callbacks on; -1: never
 	var moved map[uintptr]bool
